@@ -769,6 +769,10 @@ def orc_c19(ctx, op, req, impl, model, spec):
                 return ("after step %d the identifier %s does not serialise to its quoted canonical string, or does not deserialise to an "
                         "equal value" % (i + 1, get_kv(st, "str")))
         return None
+    if op == "sernhr":
+        if impl.startswith("ok") and model is not None and impl != model:
+            return "through a serde format that is not human readable the value is not its canonical string / does not round-trip: %s (expected %s)" % (impl, model)
+        return None
     if op == "serto":
         if not impl.startswith("ok"):
             return None
@@ -888,7 +892,7 @@ PROPS = {
     "C16": Prop("C16", [("macros", None)], {"mac"}, proj_c16, orc_c16, design_ref="4/C16"),
     "C18": Prop("C18", [("layoutnames", None), ("tablemisc", None)] + S(["triples"], "max,dir"), {"max", "dir", "cldrversion"}, proj_full, orc_c18,
                 design_ref="4/C18"),
-    "C19": Prop("C19", [("serde", None), ("hist", None)], {"serto", "serfrom", "hist"}, proj_c19, orc_c19, design_ref="4/C19"),
+    "C19": Prop("C19", [("serde", None), ("hist", None)], {"serto", "serfrom", "hist", "sernhr"}, proj_c19, orc_c19, design_ref="4/C19"),
     "C20": Prop("C20", S(["tokens"], "loc") + S(["wf", "near"], "li,loc,lican,loccan,conv,liparts,locparts") + S(["subtag"], "lang,script,region,variant")
                 + [("hist", None), ("match", None), ("rel", None), ("parts", None), ("pairs", None), ("layoutnames", None)],
                 None, proj_c20, orc_c20, design_ref="4/C20",
